@@ -366,6 +366,40 @@ func C08(c *core.Ctx) {
 			}
 		})
 		c.Decide(ok, "R8.3", "dnl-lifetime", p.Pos(fn.Pos()), "dead-nonce records expire at Now()+deadNonceListLifetime", "dead-nonce records are not scheduled to expire after the configured lifetime")
+		// one expiry item per record: the queue push is reachable only on the edge asserting
+		// that the record was not in the map. A second item for a record that is already
+		// there outlives the first: when the first expires the record is deleted, and the
+		// second later deletes a FRESH record of the same pair before its lifetime is over
+		// (the removal pops a hash and deletes the map entry without looking at the time of
+		// the record) — a looping Interest with a nonce recorded as dead is forwarded.
+		var pushes []ssa.Instruction
+		core.InstrsDeep(fn, func(in ssa.Instruction) {
+			if ci, isCI := in.(ssa.CallInstruction); isCI {
+				if id, okID := core.Callee(ci.Common()); okID && id.Name == "Push" {
+					if r, _ := core.CallArgs(ci.Common()); r != nil {
+						if _, isQ := core.FieldOf(r, "expirationQueue"); isQ {
+							pushes = append(pushes, in)
+						}
+					}
+				}
+			}
+		})
+		exists := &core.Atom{Name: "record already in the list", Match: func(cond ssa.Value) (int, int) {
+			e, isE := core.Strip(cond).(*ssa.Extract)
+			if !isE || e.Index != 1 {
+				return 0, 0
+			}
+			lk, isL := e.Tuple.(*ssa.Lookup)
+			if !isL || !lk.CommaOk {
+				return 0, 0
+			}
+			if _, isList := core.FieldOf(lk.X, "list"); !isList {
+				return 0, 0
+			}
+			return 1, -1
+		}}
+		g := core.GateDeep(fn, pushes, neg(exists))
+		c.Decide(len(pushes) > 0 && g.OK && g.PassEdges > 0, "R8.3", "dnl-one-expiry-item-per-record", p.Pos(fn.Pos()), "an expiry item is queued only for a record that was not in the list", "DeadNonceList.Insert queues an expiry item also for a (name, nonce) pair that is already recorded: the older item deletes the record when it expires, and the newer one later deletes a fresh record of the same pair before its lifetime is over — within that lifetime a looping Interest carrying the dead nonce is forwarded again")
 	}
 
 	// ---- R8.4 prune loops use the cursor
